@@ -492,6 +492,10 @@ func (tree *ParserT) parseSubExpression(exec bool) (any, error) {
 	if err != nil {
 		return nil, err
 	}
+	if branch.charPos < 0 {
+		// nothing follows the '(' (see the same guard in parseExpression)
+		return nil, raiseError(tree.expression, nil, tree.charPos, "missing closing parenthesis, ')'")
+	}
 	tree.charPos += branch.charPos - 1
 	if exec {
 		dt, err := branch.executeExpr()
